@@ -32,6 +32,21 @@ CHECKS = {
              "non-accepted code. Every generated history is replayed: a function body that runs in the real code more often "
              "than in the spec, or a path whose real signature differs between two evaluations with equal cones, is a violation.",
         design_ref="DESIGN.md 5 C02, 4.1"),
+    "C03": dict(
+        engine="tlc-design+tlc-generate+tlc-trace",
+        technique="TLA+ spec DdsEval (cones never read process / environment state: action property EnvIndependent, TLC) + TLA+ "
+                  "trace spec SigTrace (signature is a function of content, pinned table as initial state) judging observations "
+                  "recorded from TLC-generated histories replayed in a matrix of environments and from the pinned corpus",
+        text="TLC-generated histories (incl. variable edit + revert in one process, entry-style switches, second pipelines first) are "
+             "replayed in fresh interpreters with PYTHONHASHSEED 0 / 1 / 4242 / random, two working directories, the package at "
+             "three on-disk locations, memory / local / local+LRU / noop stores, extra_debug on/off, graph export on/off, in a "
+             "warm forked process, and as IPython notebook cells with redefinition in later cells; each signature handed to "
+             "Store.sync_paths is recorded with the dependency cone DdsEval computes for that node. 52 evaluations of a pinned "
+             "corpus (18 generated + 1 hand-written program file, signatures in corpus/pinned.json) are re-run in two more "
+             "environments. TLC (SigTrace) checks that equal content never shows two signatures, the pinned table included.",
+        design_ref="DESIGN.md 5 C03", category="model_checking",
+        note="Finite sample of seeds and environments; the corpus is re-pinned only explicitly (tools/repin.py) after fix commits "
+             "that change signatures on purpose. Trusted: TLC, sha256, CPython ast/inspect determinism."),
     "C04": dict(
         engine="tlc-design+tlc-generate",
         technique="TLA+ spec DdsEval (Commit action, PathsServed invariant) checked by TLC; replay of generated histories with "
